@@ -836,6 +836,10 @@ func (x *exec) valuesEqual(st *State, a, b Value) smt.Term {
 		}
 		unsupported("comparison of a static pointer with a symbolic one")
 	}
+	// slices compare with nil only: the backing array decides
+	if _, ok := types.Unalias(a.T).Underlying().(*types.Slice); ok && len(a.L) == 4 && len(b.L) == 4 {
+		return smt.Eq(a.L[slArr], b.L[slArr])
+	}
 	// interface vs concrete cannot happen in SSA (MakeInterface inserted)
 	la, lb := e.leavesOf(a), e.leavesOf(b)
 	if len(la) != len(lb) {
